@@ -21,7 +21,8 @@ CLAIMED = {
             'inputs and crash points at statement granularity, which tests cannot.',
             'Assumes user callbacks leave the precision as found; restoring stores are atomic; calls '
             'are resolved by name through the context registries and class methods (unresolved calls '
-            'are counted in the evidence and assumed not to touch the precision).',
+            'are counted in the evidence and assumed not to touch the precision).  Relative precision changes use integer '
+            'amounts (A-R9); the precision of a borrowed context is saved from and restored to that context (A-R10).',
             'DESIGN.md section 2, Engine A'),
     'C05': ('G-hash-range',
             'static analysis: integer interval analysis (with excluded points) of the hash kernels '
@@ -162,7 +163,9 @@ CLAIMED = {
             'Trusts the rounding primitives (checked under C01), the exemption tables in '
             'sa/tables.py and that private helpers are reached only through rounding callers.  The '
             'run-time generated hypergeometric summators are outside the analysed source.  '
-            'High-level calculus routines (findroot, invertlaplace, ...) are outside the property.',
+            'High-level calculus routines (findroot, invertlaplace, ...) are outside the property.  Values served from a '
+            '(precision, value) cache by functions that no wrapper re-rounds are re-rounded on a hit (B-R11); polyval rounds the '
+            'value of a constant polynomial (B-R8p); exact_nthroot bounds the root by ceil(bc/n) (E-X1).',
             'DESIGN.md section 2, Engine B'),
     'C33': ('D-cache-discipline',
             'static analysis: discovery of all mutated containers + class-specific data-flow rules '
@@ -237,7 +240,8 @@ CLAIMED = {
             'intervals, given exact order kernels.  `in` is also evaluated for a complex operand (imaginary part '
             'zero / non-zero on all orderings of the real part: never True off the real line), and every comparison '
             'method answers NotImplemented - never a truthy exception class - for operands it cannot handle (both '
-            'found as defects and repaired).',
+            'found as defects and repaired); an exact rational operand (Fraction / mpq) is not widened to its enclosure: '
+            'the interval is scaled by the denominator with exact products and compared with the numerator (F-R13).',
             'Trusts the small evaluator in sa/order_abs.py and that mpf_lt/le/gt/ge are exact (C05 '
             'clause); nan endpoints excluded.',
             'DESIGN.md section 2, Engine F'),
@@ -273,7 +277,8 @@ CLAIMED = {
             'ln2/(2 pi) * working precision; the switch-over / argument-reduction thresholds in front of '
             'the four asymptotic-series helpers are computed from the precision variable the series runs '
             'at, after its last change (T-R8).  Found and repaired: mpc_psi0 never returned above ~4400 '
-            'bits.',
+            'bits.  Unbounded term generators handed to sum_accurately have a counter cap, factorial decay or a bound on the '
+            'number of terms established before (T-R14).',
             'Convergence of each series / Newton iteration for each argument is not decided.',
             'DESIGN.md section 4 (C24)'),
     'C34': ('H-ode-closure',
@@ -341,8 +346,11 @@ CLAIMED = {
             'clone constructs a new instance and copies scalar settings only; library code never reads '
             'the pickling globals (always mp\'s classes) or the global instances; number-class methods '
             'allocate from the receiver\'s context; code running on ctx._mp restores that context\'s '
-            'precision in a finally clause; fp precision setters store nothing.  That a clone computes '
-            'the same values as mp is numerical and not decided.',
+            'precision in a finally clause; fp precision setters store nothing; clone copies every constant-initialised public '
+            'setting (X-R3c); data computed in a borrowed context holds no lazy constant and the borrowed context\'s '
+            'trap_complex is neutralised (X-R10, X-R11); matrix entries taken over without conversion come from a matrix of '
+            'the same context (X-R12); constants of another context are evaluated at the receiving context (X-R13).  '
+            'That a clone computes the same values as mp is numerical and not decided.',
             'Module-level / default-argument caches are decided under C33 (D-R3).  Trusts Engine A '
             'summaries for "leaves the precision changed".',
             'DESIGN.md section 4 (C38)'),
@@ -362,7 +370,7 @@ CLAIMED = {
             'deg values and only past its convergence gate.  Convergence, multiplicities, accuracy and the '
             'ordering of polyroots\' output are numerical and not decided.',
             'Trusts the sign-arithmetic lemmas of sa/sign_abs.py; assumes f deterministic and tol > 0.  '
-            'Seeded change C29-1 (sort key of polyroots sensitive to rounding noise) is not detected.',
+            'A nan residual is seen by the infinity norm and a nan Newton step ends the multidimensional iteration (R-R6).',
             'DESIGN.md section 4 (C29)'),
     'C37': ('Y-backend-siblings',
             'static analysis: discovery and classification of every BACKEND-dependent binding, signature '
@@ -436,7 +444,7 @@ CLAIMED = {
             'repaired); rationals stored without create_reduced keep a positive denominator (N-R8, sign analysis; '
             'genuine defect repaired).  ldexp and frexp are exact field rewrites '
             '(exponent + n; exponent -bc with e = exp+bc).  The rational and mpf branches of nint_distance are closed-form '
-            'integer arithmetic and are evaluated from the source on a grid (N-R6: grid evaluation, not a proof); fp and iv contexts and Python floats (C09) are outside the clause.',
+            'integer arithmetic and are evaluated from the source on a grid (N-R6: grid evaluation, not a proof); fp and iv contexts and Python floats (C09) are outside the clause; isint / isnpint / nint_distance decide a Fraction from numerator and denominator before the rounding conversion (N-R9).',
             'Assumes canonical raw values (C01) and reduced rationals; trusts the interpreter in sa/classdom.py.',
             'DESIGN.md section 10 (C39)'),
     'C08': ('W-printing',
